@@ -80,14 +80,26 @@ def effect_ref(gene, r, alt):
 
 
 class RecVariant:
+    """Records what aldy hands to indelpost.Variant and delegates to the real (compiled) class, so that the
+    equivalence table is built from indelpost's real equivalents over the reference aldy itself writes."""
     log = []
+    real = None
 
     def __init__(self, chrom, pos, ref, alt, reference):
         self.chrom, self.pos, self.ref, self.alt = chrom, pos, ref, alt
+        self._v = RecVariant.real(chrom, pos, ref, alt, reference)
         RecVariant.log.append(self)
 
     def generate_equivalents(self):
-        return [self]
+        return self._v.generate_equivalents()
+
+
+class SamStub:
+    def __init__(self, n):
+        self.n = n
+
+    def get_reference_length(self, name):
+        return self.n
 
 
 class C08(Check):
@@ -218,11 +230,18 @@ class C08(Check):
             sm._indel_sites_eqs = {}
             RecVariant.log = []
             old = IP.Variant
+            RecVariant.real = old
             IP.Variant = RecVariant
             try:
-                sm._realign_indels(worlds.tmpdir(), None, self._fasta(), True)
+                # reference=None: aldy writes its own N-padded reference from the gene's lookup sequence
+                sm._realign_indels(worlds.tmpdir(), SamStub(e + 60), None, True)
             finally:
                 IP.Variant = old
+                for fn in ("ref.fa", "ref.fa.fai"):
+                    try:
+                        os.remove(os.path.join(worlds.tmpdir(), fn))
+                    except OSError:
+                        pass
             if len(RecVariant.log) != len(indels):
                 v.append(("anchor/realign-count", f"{len(RecVariant.log)} variants handed over for {len(indels)} catalogued indels"))
             order = sorted(indels, key=lambda x: (x[0], -len(x[1])))
@@ -246,6 +265,8 @@ class C08(Check):
                 gseq = g[lo:hi]
                 if "N" in gseq:
                     continue
+                if wk == ("toy",) and m[1].startswith("del") and g[m[0]:m[0] + len(m[1]) - 3] != m[1][3:]:
+                    continue      # the toy database's deletions do not match its reference (see assumptions)
                 if apply_cigar_style(gseq, lo, np_, no) != apply_genome(gseq, lo, m[0], m[1]):
                     v.append((f"anchor/long-read-table/{kind_of(m[1])}", f"alignment key {(np_, no)} is mapped to {m} but spells a different haplotype"))
             eq_targets = set(sm._indel_sites_eqs.values())
@@ -254,6 +275,28 @@ class C08(Check):
                     continue
                 if m not in eq_targets:
                     v.append(("anchor/long-read-table-missing", f"{m} has no alignment-notation key"))
+                    continue
+                # completeness: every alignment placement (within the window) that spells the same haplotype must be
+                # credited to this variant - a read shows the indel wherever the aligner happened to place it
+                lo, hi = max(s, m[0] - W), min(e, m[0] + W)
+                gseq = g[lo:hi]
+                if "N" in gseq or wk == ("toy",):
+                    continue
+                H = apply_genome(gseq, lo, m[0], m[1])
+                k = len(m[1]) - 3
+                for q in range(lo + 2, hi - k - 2):
+                    if m[1].startswith("ins"):
+                        key = (q, "ins" + H[q - lo:q - lo + k])
+                    else:
+                        key = (q, "del" + gseq[q - lo:q - lo + k])
+                    if apply_cigar_style(gseq, lo, key[0], key[1]) != H:
+                        continue
+                    cnt["placements"] += 1
+                    got = sm._indel_sites_eqs.get(key)
+                    if got is None:
+                        v.append((f"anchor/long-read-placement-missing/{kind_of(m[1])}", f"{wk} {build}: {key} spells the haplotype of {m} but is not in the equivalence table"))
+                    elif got != m and apply_genome(gseq, lo, got[0], got[1]) != H:
+                        v.append((f"anchor/long-read-placement/{kind_of(m[1])}", f"{wk} {build}: {key} spells the haplotype of {m} but is credited to {got}"))
         # (6) inferred effects: both builds must agree with an independent translation
         sites = sorted({r for s_, e_ in g.exons for r in range(s_, e_)})
         if tier == "quick":
